@@ -218,12 +218,24 @@ def run(tier, replay):
     import c01
     cexe = c01.cosim_exe()
     pj = []
+    chain_jobs = {}
     pubmap = {n.split("+")[0]: n for n in lis_b}
     for base, chain in S.bkg_names(port_only=True).items():
         k0 = chain[0][0]
         paths = S.all_paths(k0) if len(chain) > 1 else [p_ for (_e, p_) in S.witness_paths(k0)]
         for p_ in paths:
             pj.append(sch.bjob("%s.%d" % (base, len(pj)), pubmap.get(base, base), 1 + len(pj), [S.plan(k0, p_)]))
+        # a chained name: every path of each daughter scheme as well, under parent paths that do (and do not) chain it - the
+        # daughter's particles, ALL of them, carry the parent's decay time (co-simulation with the reference decides)
+        if len(chain) > 1:
+            wit0 = [p_ for (_e, p_) in S.witness_paths(k0)]
+            par = [p_ for p_ in wit0 if not S.first_is_alpha(k0, p_)][:3] + [p_ for p_ in wit0 if S.first_is_alpha(k0, p_)][:1]
+            for (kd, _ua) in chain[1:]:
+                for pd_ in S.all_paths(kd):
+                    for p_ in par:
+                        jid = "%s.c%d" % (base, len(pj))
+                        pj.append(sch.bjob(jid, pubmap.get(base, base), 1 + len(pj), [S.plan(k0, p_), S.plan(kd, pd_)]))
+                        chain_jobs[jid] = (base, kd)
     gfile = os.path.join(wd, "genbb_paths.ndjson")
     nshp = 4
     gfiles = [gfile + ".%d" % i for i in range(nshp)]
@@ -235,6 +247,21 @@ def run(tier, replay):
         for rc_, out_ in ex.map(gshard, range(nshp)):
             if rc_ != 0:
                 ck.violation("cosim-crash", "co-simulation harness died (rc=%s): %s" % (rc_, out_[-400:]), None)
+            for l_ in out_.splitlines():
+                if not l_.startswith("{"):
+                    continue
+                try:
+                    rj_ = json.loads(l_)
+                except ValueError:
+                    continue
+                if rj_.get("id") in chain_jobs and rj_["cls"] not in ("agree", "y90-pair-deviation", "knife-edge-excluded"):
+                    base_, kd_ = chain_jobs[rj_["id"]]
+                    ck.violation("%s:chain:%s:%s" % (base_, kd_, rj_["cls"]),
+                                 "chained name '%s': on a steered path of its daughter scheme %s the event is not the parent's decay followed by the "
+                                 "daughter's, as the reference composes them from the same deviates (%s): %s" % (
+                                     pubmap.get(base_, base_), kd_, rj_["cls"], rj_["detail"][:300]),
+                                 {"job": [j for j in pj if j.split()[1] == rj_["id"]]})
+    ck.set("chained_daughter_paths_steered", len(chain_jobs))
     for gf in gfiles:
         rr2 = vlib.tlc("MCTraceGenbb", "MCTraceGenbb.cfg", workers=1, env={"TRACE": gf}, timeout=900)
         m2 = re.search(r'furthest-line", (\d+), "of", (\d+)', rr2.out)
